@@ -1449,6 +1449,13 @@ func (e *Env) composite(n *ast.CompositeLit) Value {
 		}
 		return StructV{F: f, Typ: t}
 	case *types.Slice:
+		if e.R().sortOf(u.Elem()) == nil {
+			var el []Value
+			for _, ex := range n.Elts {
+				el = append(el, e.expr(ex))
+			}
+			return SeqV{Elems: el, Len: IntC(int64(len(el))), Typ: t}
+		}
 		arr := ConstArr(e.zeroElem(u.Elem()))
 		idx := int64(0)
 		for _, el := range n.Elts {
